@@ -185,7 +185,9 @@ PLAN = {
                 thorough_profiles=["allocfull", "allocmax"], quick_extra=[("allocmax", 1)]),
     "C09": dict(_p(["C09.a", "C09.b"], [("crash", 8, 11), ("crashu", 7, 10)], ["crash", "crashu"],
                    ["crash", "usage", "mailbox", "script2", "crowd", "reuseu"], ["P09"]),
-                variants={"crash": [dict(), dict(usage=True)]}),
+                # (mailbox, second variant: many adds with a value SQLite cannot bind, the clock moving in between)
+                variants={"crash": [dict(), dict(usage=True)],
+                          "mailbox": [dict(), dict(profile=dict(badmood=0.6, w_advance=5))]}),
     "C10": dict(_p(["C10.a", "C10.b", "C10.c", "C13.c"], [("crash", 8, 11), ("crashu", 7, 10)], ["crash", "crashu"],
                    ["crash", "boundaries"], ["P10", "P13"], pairs=[("resume", 144, 4000)], pairclause="C10.resume"),
                 variants={"crash": [dict(), dict(usage=True)], "boundaries": [dict(), dict(usage=True)]}),
